@@ -24,7 +24,7 @@ LEVEL_TEXT = ("Multi-file, irregular frame layouts with a time-dependent sheared
 LEVEL_NOTE = "Negation and the interpolation arithmetic are sign-symmetric in IEEE arithmetic, but increments accumulate in a different order in the two runs (float32 fields): tolerance 1e-5 cells relative to O(1) positions is used for float32 storage, 1e-9 for float64 storage."
 RULE = ("case = (frame layout, file partition, start/stop positions, release table, mode, scheme). Non-trivial: at least two release times and a frame hand-over inside the run; "
         "distinct by parameters.")
-MANDATORY = ["reversed_run_warm_started", "single_release_time_several_rows", "release_rows_outside_the_window", "duration_not_a_whole_number_of_steps", "split_output", "particle_variable_files_compared", "release_time_between_steps", "records_compared", "multi_file", "several_release_times", "continuous", "discrete", "scheme_EF", "scheme_RK2", "scheme_RK4", "start_between_frames",
+MANDATORY = ["frame_stamps_with_a_sub_second_part", "reversed_run_warm_started", "single_release_time_several_rows", "release_rows_outside_the_window", "duration_not_a_whole_number_of_steps", "split_output", "particle_variable_files_compared", "release_time_between_steps", "records_compared", "multi_file", "several_release_times", "continuous", "discrete", "scheme_EF", "scheme_RK2", "scheme_RK4", "start_between_frames",
              "clock_readings_checked", "release_times_checked"]
 ASSUMPTIONS = ["frames on the model time grid; release times sorted in simulation order"]
 TIMEOUT = {"quick": 900, "thorough": 3400}
@@ -91,7 +91,7 @@ def build(case: dict[str, Any]):
             rows.append(dict(step=s_, frac=0.0, X=9.5, Y=7.5, Z=5.0, rid=rid))
     extra = dt // 2 if (case["idx"] % 5 == 2 and E > P[0] and case["idx"] % 6) else 0  # |stop - start| not a whole number of steps: both runs take floor(.) steps
     return dict(dt=dt, P=P, files=files, S=S, E=E, ns=ns, imax=imax, jmax=jmax, N=N, dx=dx, pattern=pattern, amp=amp, prof=prof, store=store, scheme=scheme,
-                cont=cont, freq=freq, rows=rows, numrec=2 if case["idx"] % 6 == 0 else int(rng.choice([0, 2, 3])), outside=outside, extra=extra, single=single)
+                subsecond=bool(case["idx"] % 4 == 2), cont=cont, freq=freq, rows=rows, numrec=2 if case["idx"] % 6 == 0 else int(rng.choice([0, 2, 3])), outside=outside, extra=extra, single=single)
 
 
 def scenarios(b: dict[str, Any]):
@@ -99,10 +99,13 @@ def scenarios(b: dict[str, Any]):
     t0 = C.T0  # physical time of position 0
     start = str(tadd(t0, S * dt))
     common = dict(imax=b["imax"], jmax=b["jmax"], N=b["N"], h=dict(kind="flat", h=100.0), metric=dict(kind="uniform", dx=b["dx"], dy=b["dx"]), store=b["store"])
-    wrev = dict(common, t0=t0, frames=[p * dt for p in P], files=b["files"], vel=dict(b["pattern"], frame_amp=b["amp"], profile=b["prof"]))
+    # a quarter of the cases: frame stamps with a sub-second part (as float days / hours produce), a quarter of a second after the model time in the
+    # reversed world, hence a quarter of a second before it on the mirrored axis
+    off = 0.25 if b.get("subsecond") else 0.0
+    wrev = dict(common, t0=t0, frames=[p * dt + off for p in P], files=b["files"], vel=dict(b["pattern"], frame_amp=b["amp"], profile=b["prof"]))
     # mirrored about S: position p -> 2S - p, order reversed, velocities negated
     Pm = [2 * S - p for p in reversed(P)]
-    wfwd = dict(common, t0=t0, frames=[p * dt for p in Pm], files=list(reversed(b["files"])),
+    wfwd = dict(common, t0=t0, frames=[p * dt - off for p in Pm], files=list(reversed(b["files"])),
                 vel=dict(b["pattern"], frame_amp=[-a for a in reversed(b["amp"])], profile=b["prof"]))
     cols = ["release_time", "X", "Y", "Z", "rid"]
     srt = sorted(b["rows"], key=lambda r: r["step"] + r.get("frac", 0.0))
@@ -143,6 +146,7 @@ def run_case(case: dict[str, Any], wd: Path) -> dict[str, Any]:
     sit["several_release_times"] = int(len({r["step"] for r in b["rows"]}) > 1)
     sit["continuous" if b["cont"] else "discrete"] = 1
     sit[f"scheme_{b['scheme']}"] = 1
+    sit["frame_stamps_with_a_sub_second_part"] = int(bool(b.get("subsecond")))
     sit["start_between_frames"] = int(b["S"] not in b["P"])
     sit["release_time_between_steps"] = int(any(r.get("frac") for r in b["rows"]))
     sit["release_rows_outside_the_window"] = int(bool(b.get("outside")))
